@@ -16,9 +16,9 @@ def num(rng, lo, hi, decimals=None, pct=False):
     d = rng.choice([0, 0, 1, 2, 3, 6]) if decimals is None else decimals
     v = rng.uniform(lo, hi)
     s = ("%." + str(d) + "f") % v
-    if rng.random() < 0.1 and s.startswith("0."):
+    if rng.random() < 0.1 and s.startswith("0.") and len(s) > 2:
         s = s[1:]
-    if rng.random() < 0.05:
+    if rng.random() < 0.05 and not s.startswith("-"):
         s = "+" + s
     return s + ("%" if pct else "")
 
